@@ -128,8 +128,10 @@ def run(ctx, rep) -> None:
     rep.floor("refused-claim paths", n_block, 2)
     # a False result raises inside the body (source shape)
     fi = prog.func("stabilize.handlers.start_stage.handler", "StartStageHandler._start_if_ready")
-    raising = [n for n in ast.walk(fi.node) if isinstance(n, ast.If) and "txn.acquire_claim(" in norm(n.test) and "not " in norm(n.test) and any(isinstance(s, ast.Raise) for s in n.body)]
-    n_acq = sum(1 for n in ast.walk(fi.node) if isinstance(n, ast.Call) and isinstance(n.func, ast.Attribute) and n.func.attr == "acquire_claim")
+    # wherever the claim is taken (the handler itself or a helper it calls): every acquire_claim result is tested and a refusal raises
+    scope_fns = [f_ for f_ in prog.all_functions() if f_.module.name.startswith("stabilize.handlers.start_stage") and f_.parent is None]
+    raising = [n for f_ in scope_fns for n in ast.walk(f_.node) if isinstance(n, ast.If) and ".acquire_claim(" in norm(n.test) and "not " in norm(n.test) and any(isinstance(s, ast.Raise) for s in n.body)]
+    n_acq = sum(1 for f_ in scope_fns for n in ast.walk(f_.node) if isinstance(n, ast.Call) and isinstance(n.func, ast.Attribute) and n.func.attr == "acquire_claim")
     rep.check(len(raising) >= 1 and len(raising) == n_acq, "C11.R1", "a refused claim raises inside the transaction body (rollback)", f"{len(raising)} guarded raise(s) for {n_acq} acquire_claim call(s)", fi.file, raising[0].lineno if raising else fi.node.lineno, disc="raise")
 
     # ---- R3 -------------------------------------------------------------------------------------
